@@ -24,6 +24,7 @@ enum OpKind {
   OP_BIN_FILE,
   OP_EXEC,
   OP_LAUNCH,
+  OP_REFILL,    // the caller overwrites its own buffer with a fill pattern (it is the caller's memory)
   OP_SABOTAGE,  // canaries only: the simulator itself commits the sin the oracle looks for (DESIGN 5.5)
   OP_NKINDS
 };
